@@ -8,6 +8,7 @@ package main
 import (
 	"fmt"
 	"os"
+	"strings"
 	"time"
 
 	log "github.com/go-spring/log"
@@ -15,9 +16,17 @@ import (
 
 func c06ManyDiscards(w *W) {
 	registerMonitorPlugins()
-	const extra = 3*16384 + 77
-	for ci, policy := range []string{"Discard", "DiscardOldest", "Discard", "DiscardOldest"} {
-		layout := ci >= 2
+	for ci, policy := range []string{"Discard", "DiscardOldest", "Discard", "DiscardOldest", "Discard", "DiscardOldest"} {
+		layout := ci == 2 || ci == 3
+		// the last two cases: the overflow consists of 1300 raw writes of 64 KiB each (more than 80 MiB dropped in total);
+		// after the queue has drained, ten small items submitted one at a time to the empty buffer must all be delivered
+		big := ci >= 4
+		extra := 3*16384 + 77
+		pad := ""
+		if big {
+			extra = 1300
+			pad = strings.Repeat("P", 64<<10)
+		}
 		c := asyncCase{Policy: policy, Buf: 100, Producers: 1, Appender: "gated", Layout: layout}
 		w.Journal("C06 manydiscards %+v", c)
 		rec.take()
@@ -30,7 +39,9 @@ func c06ManyDiscards(w *W) {
 		g.Open.Store(false)
 		id := func(i int) string { return fmt.Sprintf("id-md%dx%d-%d", w.Spec.Shard, ci, i) }
 		submit := func(i int) {
-			if i%5 == 4 {
+			if big && i > 100 && i <= 100+extra {
+				l.Write([]byte("raw " + id(i) + "\n" + pad))
+			} else if i%5 == 4 {
 				l.Write([]byte("raw " + id(i) + "\n"))
 			} else {
 				appendEvent(l, log.InfoLevel, id(i))
@@ -78,6 +89,25 @@ func c06ManyDiscards(w *W) {
 		for i := 0; i < 8; i++ {
 			g.Gate <- struct{}{}
 		}
+		tail := 0
+		if big {
+			t0 := time.Now()
+			for rec.count() < 101 && time.Since(t0) < 30*time.Second {
+				time.Sleep(100 * time.Microsecond)
+			}
+			for j := 1; j <= 10 && rec.count() >= 101; j++ {
+				before := rec.count()
+				submit(total + j)
+				for t0 = time.Now(); rec.count() == before && l.GetDiscardCounter() == discarded && time.Since(t0) < 20*time.Second; {
+					time.Sleep(50 * time.Microsecond)
+				}
+				if rec.count() == before {
+					w.Violate("C06:stale-full:dropped-with-free-space:"+policy, fmt.Sprintf("after an overflow in which %d raw writes of 64 KiB were dropped and the queue had drained, %s - submitted to an empty buffer with an idle worker - was not delivered (discard counter %d -> %d)", extra, id(total+j), discarded, l.GetDiscardCounter()), cs)
+					break
+				}
+				tail++
+			}
+		}
 		if ok, pv, _ := callWithWatchdog(60*time.Second, stop); !ok || pv != nil {
 			w.Inconclusive(fmt.Sprintf("manydiscards: Stop did not return / panicked (%v)", pv))
 			continue
@@ -105,6 +135,12 @@ func c06ManyDiscards(w *W) {
 				want = append(want, id(i))
 			}
 		}
+		for j := 1; j <= tail; j++ {
+			want = append(want, id(total+j))
+		}
+		if big && tail < 10 {
+			continue // already reported
+		}
 		w.Eval(1)
 		ok := discarded == int64(extra) && len(got) == len(want)
 		for i := 0; ok && i < len(want); i++ {
@@ -121,7 +157,7 @@ func c06ManyDiscards(w *W) {
 			continue
 		}
 		w.Count("submissions_behind_stalled_appender", int64(total))
-		w.Distinct(fmt.Sprintf("manydiscards|%s|layout=%v", policy, layout))
+		w.Distinct(fmt.Sprintf("manydiscards|%s|layout=%v|big=%v", policy, layout, big))
 	}
-	w.Sample(map[string]any{"kind": "manydiscards", "submitted_after_full": extra, "policies": "Discard, DiscardOldest, with and without a logger-level layout"})
+	w.Sample(map[string]any{"kind": "manydiscards", "submitted_after_full": 3*16384 + 77, "policies": "Discard, DiscardOldest, with and without a logger-level layout; plus 1300 raw writes of 64 KiB and ten small items after the drain"})
 }
